@@ -13,6 +13,7 @@ import (
 	"path/filepath"
 	"sort"
 	"strings"
+	"sync"
 	"time"
 
 	"github.com/coredhcp/coredhcp/handler"
@@ -106,34 +107,310 @@ type rangeHist struct {
 	At                int      `json:"at"`
 }
 
+// one scripted step of a range-plugin history
+type rsop struct {
+	kind   string // "req", "restart", "sleep"
+	client int
+	host   string
+	mt     dhcpv4.MessageType
+	sleep  time.Duration
+}
+
+var rangeSetups int
+
+var rangeHosts = []string{"", "laptop", "123", "1e5", "0x10", "a\x00b", strings.Repeat("h", 255), "\xff\xfe", " 12 ", "1.50"}
+
+func rowFor(rows []dbRow, ch []byte) (dbRow, bool) {
+	for _, rw := range rows {
+		hw, err := parseHWLoose(rw.mac)
+		if err == nil && string(hw) == string(ch) {
+			return rw, true
+		}
+	}
+	return dbRow{}, false
+}
+
+// runRangeHistory runs one history on a fresh database and monitors C02/C03 on it.
+func runRangeHistory(c *Ctx, hi int, gs, ge, lease string, clients [][]byte, script []rsop, crashMode bool) {
+	wd := workDir()
+	leaseD, _ := time.ParseDuration(lease)
+	dbPath := filepath.Join(wd, fmt.Sprintf("leases-%d.sqlite3", hi))
+	os.Remove(dbPath)
+	defer os.Remove(dbPath)
+	s4 := net.ParseIP(gs).To4()
+	e4 := net.ParseIP(ge).To4()
+	start, end := binary.BigEndian.Uint32(s4), binary.BigEndian.Uint32(e4)
+	size := int(end-start) + 1
+	h, err := rangeplugin.Plugin.Setup4(dbPath, gs, ge, lease)
+	if err != nil {
+		c.Violate("harness-setup", fmt.Sprintf("Setup4(%s,%s,%s) failed: %v", gs, ge, lease, err), nil)
+		return
+	}
+	bound := map[string]string{}      // chaddr -> ip (monitor's view, over the whole history incl. restarts)
+	owner := map[string]string{}      // ip -> chaddr
+	lastPromise := map[string]int64{} // chaddr -> unix second: the stored expiry must not be earlier than this minus 1
+	var ops, outs, opS []string
+	rec := func(at int) rangeHist { return rangeHist{gs, ge, lease, opS, outs, at} }
+	aborted := false
+	doRestart := func(i int, path string, probeOnly bool) (handler.Handler4, bool) {
+		rows, rerr := readLeases(path)
+		var tbl []string
+		if rerr == nil {
+			sort.Slice(rows, func(a, b int) bool { return rows[a].mac < rows[b].mac })
+			for _, rw := range rows {
+				tbl = append(tbl, fmt.Sprintf("(%s, %s)", vStr(rw.mac), vBytes(net.ParseIP(rw.ip).To4())))
+			}
+		}
+		rangeSetups++
+		nh, err := rangeplugin.Plugin.Setup4(path, gs, ge, lease)
+		if !probeOnly {
+			ops = append(ops, "RRestart "+vList(tbl))
+			opS = append(opS, "restart")
+		}
+		if err != nil {
+			if !probeOnly {
+				outs = append(outs, "RRestartErr")
+			}
+			c.vio("C03", "restart-fails", fmt.Sprintf("restart on the database the plugin wrote fails: %v (range %s-%s)", err, gs, ge), rec(i))
+			return nil, false
+		}
+		if !probeOnly {
+			outs = append(outs, "RRestartOk true")
+		}
+		if rerr == nil && len(rows) != len(bound) {
+			c.vio("C03", "db-binding-count", fmt.Sprintf("database has %d rows for %d bindings handed out", len(rows), len(bound)), rec(i))
+		}
+		return nh, true
+	}
+	probeAll := func(hh handler.Handler4, i int, what string) {
+		keys := make([]string, 0, len(bound))
+		for k := range bound {
+			keys = append(keys, k)
+		}
+		sort.Strings(keys)
+		for _, k := range keys {
+			req := mkReq4([]byte(k), "", dhcpv4.MessageTypeRequest)
+			resp, _ := dhcpv4.New()
+			out, _, pan, _ := callH4(hh, req, resp)
+			if pan || out == nil || out.YourIPAddr.To4().String() != bound[k] {
+				got := "<none>"
+				if out != nil {
+					got = out.YourIPAddr.String()
+				}
+				c.vio("C03", "binding-not-restored", fmt.Sprintf("%s: client %x was bound to %s but is now given %s", what, k, bound[k], got), rec(i))
+			}
+		}
+	}
+	for i, so := range script {
+		if aborted {
+			break
+		}
+		c.Breadcrumb(map[string]interface{}{"range": gs + "-" + ge, "lease": lease, "ops_so_far": opS})
+		switch so.kind {
+		case "sleep":
+			time.Sleep(so.sleep)
+			c.Count("op:sleep")
+			continue
+		case "restart":
+			c.Count("op:restart")
+			nh, ok := doRestart(i, dbPath, false)
+			if !ok {
+				aborted = true
+				break
+			}
+			h = nh
+			continue
+		}
+		ch := clients[so.client]
+		c.Count("op:" + strings.ToLower(so.mt.String()))
+		req := mkReq4(ch, so.host, so.mt)
+		resp, _ := dhcpv4.New()
+		t0 := time.Now()
+		out, stop, pan, pv := callH4(h, req, resp)
+		t1 := time.Now()
+		opS = append(opS, fmt.Sprintf("%s chaddr=%x host=%q", so.mt, ch, so.host))
+		ops = append(ops, fmt.Sprintf("RReq %s %s %s %s", vZ(t0.UnixNano()), vZ(t1.UnixNano()), vBytes(ch), vStr(so.host)))
+		key := string(ch)
+		switch {
+		case pan:
+			outs = append(outs, "RPanic")
+			c.vio("C02", "range-handler-panic", fmt.Sprintf("handler panics for chaddr %x: %v", ch, pv), rec(i))
+			aborted = true
+		case out == nil:
+			outs = append(outs, "RDrop")
+			c.Count("result:drop")
+			if !stop {
+				c.vio("C02", "nil-without-stop", "nil response without stop", rec(i))
+			}
+			if _, known := bound[key]; known {
+				c.vio("C02", "bound-client-dropped", fmt.Sprintf("client %x holds %s but got no reply", ch, bound[key]), rec(i))
+			} else if len(bound) < size {
+				c.vio("C02", "drop-while-free", fmt.Sprintf("unknown client %x dropped with %d of %d addresses bound", ch, len(bound), size), rec(i))
+			}
+		default:
+			c.Count("result:reply")
+			y := out.YourIPAddr.To4()
+			lt := out.Options.Get(dhcpv4.OptionIPAddressLeaseTime)
+			// the client's row as stored now
+			rows, _ := readLeases(dbPath)
+			rw, haveRow := rowFor(rows, ch)
+			expTxt := "None"
+			if haveRow {
+				expTxt = "(Some " + vZ(rw.expiry) + ")"
+			}
+			outs = append(outs, fmt.Sprintf("ROut %s %s %s", vBytes(y), vBytes(lt), expTxt))
+			ys := y.String()
+			if y == nil {
+				c.vio("C02", "no-yiaddr", fmt.Sprintf("reply to %x has no IPv4 yiaddr", ch), rec(i))
+				break
+			}
+			yv := binary.BigEndian.Uint32(y)
+			if yv < start || yv > end {
+				c.vio("C02", "lease-out-of-range", fmt.Sprintf("client %x given %s outside %s-%s", ch, ys, gs, ge), rec(i))
+			}
+			if o, taken := owner[ys]; taken && o != key {
+				c.vio("C02", "address-bound-twice", fmt.Sprintf("%s given to %x while bound to %x", ys, ch, o), rec(i))
+			}
+			if prev, known := bound[key]; known && prev != ys {
+				c.vio("C02", "lease-not-sticky", fmt.Sprintf("client %x was given %s, now %s", ch, prev, ys), rec(i))
+			} else if !known && len(bound) >= size {
+				c.vio("C02", "lease-beyond-capacity", fmt.Sprintf("unknown client %x served with all %d addresses bound", ch, size), rec(i))
+			}
+			wantLT := make([]byte, 4)
+			binary.BigEndian.PutUint32(wantLT, uint32(leaseD.Round(time.Second)/time.Second))
+			if string(lt) != string(wantLT) {
+				c.vio("C02", "wrong-lease-time", fmt.Sprintf("option 51 = %x, configured %s", lt, lease), rec(i))
+			}
+			bound[key] = ys
+			owner[ys] = key
+			lastPromise[key] = t0.Add(leaseD.Round(time.Second)).Unix()
+			// C03: the stored expiry covers the lease just promised (one-second resolution)
+			if !haveRow {
+				c.vio("C03", "binding-not-stored", fmt.Sprintf("no row in leases4 for client %x after it was given %s", ch, ys), rec(i))
+			} else {
+				if rw.expiry < lastPromise[key]-1 {
+					c.vio("C03", "expiry-before-promise", fmt.Sprintf("stored expiry %d of %x is earlier than the end %d of the lease (%s) just promised", rw.expiry, ch, lastPromise[key], lease), rec(i))
+				}
+				if ip := net.ParseIP(rw.ip).To4(); ip == nil || ip.String() != ys {
+					c.vio("C03", "stored-binding-differs", fmt.Sprintf("leases4 holds %s for client %x which was given %s", rw.ip, ch, ys), rec(i))
+				}
+			}
+		}
+		// C03 crash point: copy the database as it is now and restart on the copy
+		// (every Setup4 leaves a database handle open for the life of the process - the plugin has
+		// no close - so the number of crash-point restarts per run is capped below the fd limit)
+		if crashMode && !aborted && (c.Thorough() || i%3 == 0) && rangeSetups < 12000 {
+			cp := dbPath + ".crash"
+			if err := copyFile(dbPath, cp); err == nil {
+				c.Count("crash-point")
+				if hh, ok := doRestart(i, cp, true); ok {
+					probeAll(hh, i, "after crash/restart at this point")
+				}
+				os.Remove(cp)
+			}
+		}
+	}
+	if !aborted {
+		c.Count("op:restart")
+		if nh, ok := doRestart(len(ops), dbPath, false); ok {
+			probeAll(nh, len(ops), "after the final restart")
+		}
+	}
+	c.AddCase(fmt.Sprintf("CR %s %s %s %s %s", vBytes(s4), vBytes(e4), vZ(int64(leaseD)), vList(ops), vList(outs)))
+	c.Eval(gs+ge+lease+strings.Join(opS, ";"), len(bound) >= 1 && len(ops) >= 2)
+	c.Count(fmt.Sprintf("range-size:%d", size))
+	if hi%9 == 0 || hi >= 9000 {
+		k := len(opS)
+		if k > 5 {
+			k = 5
+		}
+		c.Sample(map[string]interface{}{"range": gs + "-" + ge, "lease": lease, "clients": len(clients), "ops(first 5)": opS[:k], "outs(first 5)": outs[:k], "length": len(opS)})
+	}
+}
+
+func genClients(c *Ctx, hi, ncl int) [][]byte {
+	r := c.R
+	var clients [][]byte
+	seen := map[string]bool{}
+	for len(clients) < ncl {
+		var ch []byte
+		switch {
+		case hi == 0 && len(clients) == 0:
+			ch = []byte{1, 2, 3, 4, 5} // F6 witness: a 5-byte address
+		case hi == 0 && len(clients) == 1:
+			ch = []byte{7} // one-byte address, stored as the integer 7
+		case hi == 1 && len(clients) == 0:
+			ch = []byte{}
+		default:
+			l := r.Intn(17)
+			if r.Pct(50) {
+				l = 6
+			}
+			ch = r.Bytes(l)
+			if l == 1 && r.Bool() {
+				ch = []byte{byte(r.Intn(10))<<4 | byte(r.Intn(10))} // decimal-looking
+			}
+			if len(clients) > 0 && r.Pct(15) {
+				o := clients[r.Intn(len(clients))]
+				if len(o) > 0 && r.Bool() {
+					ch = append([]byte{}, o[:len(o)-1]...)
+				} else if len(o) < 16 {
+					ch = append(append([]byte{}, o...), 0)
+				}
+			}
+		}
+		if seen[string(ch)] {
+			continue
+		}
+		seen[string(ch)] = true
+		clients = append(clients, ch)
+		c.Count(fmt.Sprintf("chaddr-len:%d", len(ch)))
+	}
+	return clients
+}
+
 func runRange(c *Ctx) {
 	c.SetCases("From Verif Require Import Base RangePlugin RangeRun.", "RangeRun.mismatches")
 	c.shard = 40
+	if os.Getenv("VERIF_PHASE") == "conc" {
+		runRangeConcurrent(c, c.Scale(6, 40))
+		c.Extra["rule"] = "concurrent requests through the range plugin under the race detector"
+		return
+	}
 	r := c.R
-	wd := workDir()
 	type geo struct{ s, e string }
 	geos := []geo{{"10.0.0.1", "10.0.0.2"}, {"10.0.0.1", "10.0.0.3"}, {"10.1.0.0", "10.1.0.62"}, {"10.1.0.0", "10.1.0.63"},
 		{"10.1.0.0", "10.1.0.64"}, {"255.255.255.250", "255.255.255.255"}, {"192.168.7.254", "192.168.8.4"}}
-	leases := []string{"1h", "30s", "90m", "2s", "24h"}
-	hosts := []string{"", "laptop", "123", "1e5", "0x10", "a\x00b", strings.Repeat("h", 255), "\xff\xfe", " 12 ", "1.50"}
+	leases := []string{"1h", "30s", "90m", "2s", "24h", "1500ms"}
 	crashMode := c.Prop == "C03"
+	mts := []dhcpv4.MessageType{dhcpv4.MessageTypeDiscover, dhcpv4.MessageTypeRequest}
+
+	// --- time-lapse scenarios (real seconds pass between requests) ---
+	{
+		// a renewal more than a second after the first lease, well inside it: the stored
+		// expiry must follow the newly promised lease
+		cl := [][]byte{{2, 0, 0, 0, 0, 1}, {2, 0, 0, 0, 0, 2}, {9}}
+		runRangeHistory(c, 9001, "10.9.0.1", "10.9.0.9", "10s", cl, []rsop{
+			{kind: "req", client: 0, mt: mts[0]}, {kind: "req", client: 1, mt: mts[0]}, {kind: "req", client: 2, mt: mts[0], host: "123"},
+			{kind: "sleep", sleep: 1250 * time.Millisecond},
+			{kind: "req", client: 0, mt: mts[1]}, {kind: "req", client: 2, mt: mts[1]}, {kind: "restart"}, {kind: "req", client: 1, mt: mts[1]},
+		}, true)
+		// leases that have run out before a restart are still bindings: nobody else gets the address
+		runRangeHistory(c, 9002, "10.9.1.1", "10.9.1.3", "1s", cl, []rsop{
+			{kind: "req", client: 0, mt: mts[0]}, {kind: "req", client: 1, mt: mts[0]},
+			{kind: "sleep", sleep: 2100 * time.Millisecond},
+			{kind: "restart"}, {kind: "req", client: 2, mt: mts[0]}, {kind: "req", client: 0, mt: mts[1]}, {kind: "req", client: 1, mt: mts[1]},
+			{kind: "restart"}, {kind: "req", client: 2, mt: mts[1]},
+		}, true)
+	}
+
 	nh := c.Scale(36, 700)
 	for hi := 0; hi < nh; hi++ {
 		g := geos[r.Intn(len(geos))]
 		lease := leases[r.Intn(len(leases))]
-		leaseD, _ := time.ParseDuration(lease)
-		dbPath := filepath.Join(wd, fmt.Sprintf("leases-%d.sqlite3", hi))
-		os.Remove(dbPath)
 		s4 := net.ParseIP(g.s).To4()
 		e4 := net.ParseIP(g.e).To4()
-		start, end := binary.BigEndian.Uint32(s4), binary.BigEndian.Uint32(e4)
-		size := int(end-start) + 1
-		h, err := rangeplugin.Plugin.Setup4(dbPath, g.s, g.e, lease)
-		if err != nil {
-			c.Violate("harness-setup", fmt.Sprintf("Setup4(%s,%s,%s) failed: %v", g.s, g.e, lease, err), nil)
-			continue
-		}
-		// clients: corpus lengths first (F6), then random lengths 0..16
+		size := int(binary.BigEndian.Uint32(e4)-binary.BigEndian.Uint32(s4)) + 1
 		ncl := 1 + r.Intn(12)
 		if r.Pct(40) {
 			ncl = size + r.Intn(3) // make exhaustion likely for small ranges
@@ -141,222 +418,124 @@ func runRange(c *Ctx) {
 				ncl = 70
 			}
 		}
-		var clients [][]byte
-		seen := map[string]bool{}
-		for len(clients) < ncl {
-			var ch []byte
-			switch {
-			case hi == 0 && len(clients) == 0:
-				ch = []byte{1, 2, 3, 4, 5} // F6 witness: a 5-byte address
-			case hi == 0 && len(clients) == 1:
-				ch = []byte{7} // one-byte address, stored as the integer 7
-			case hi == 1 && len(clients) == 0:
-				ch = []byte{}
-			default:
-				l := r.Intn(17)
-				if r.Pct(50) {
-					l = 6
-				}
-				ch = r.Bytes(l)
-				if l == 1 && r.Bool() {
-					ch = []byte{byte(r.Intn(10))<<4 | byte(r.Intn(10))} // decimal-looking
-				}
-				if len(clients) > 0 && r.Pct(15) {
-					// a prefix / extension of another client's address
-					o := clients[r.Intn(len(clients))]
-					if len(o) > 0 && r.Bool() {
-						ch = append([]byte{}, o[:len(o)-1]...)
-					} else if len(o) < 16 {
-						ch = append(append([]byte{}, o...), 0)
-					}
-				}
-			}
-			if seen[string(ch)] {
-				continue
-			}
-			seen[string(ch)] = true
-			clients = append(clients, ch)
-			c.Count(fmt.Sprintf("chaddr-len:%d", len(ch)))
-		}
-		bound := map[string]string{}  // chaddr -> ip (monitor's view, over the whole history incl. restarts)
-		owner := map[string]string{}  // ip -> chaddr
-		lastPromise := map[string]int64{} // chaddr -> unix second by which the stored expiry must not be earlier (minus 1s)
-		var ops, outs, opS []string
-		rec := func(at int) rangeHist { return rangeHist{g.s, g.e, lease, opS, outs, at} }
+		clients := genClients(c, hi, ncl)
 		nops := 1 + r.Intn(c.Scale(50, 60))
-		aborted := false
-		doRestart := func(i int, path string, probeOnly bool) (handler.Handler4, bool) {
-			rows, rerr := readLeases(path)
-			var tbl []string
-			if rerr == nil {
-				sort.Slice(rows, func(a, b int) bool { return rows[a].mac < rows[b].mac })
-				for _, rw := range rows {
-					tbl = append(tbl, fmt.Sprintf("(%s, %s)", vStr(rw.mac), vBytes(net.ParseIP(rw.ip).To4())))
-				}
-			}
-			nh, err := rangeplugin.Plugin.Setup4(path, g.s, g.e, lease)
-			if !probeOnly {
-				ops = append(ops, "RRestart "+vList(tbl))
-				opS = append(opS, "restart")
-			}
-			if err != nil {
-				if !probeOnly {
-					outs = append(outs, "RRestartErr")
-				}
-				c.vio("C03", "restart-fails", fmt.Sprintf("restart on the database the plugin wrote fails: %v (range %s-%s)", err, g.s, g.e), rec(i))
-				return nil, false
-			}
-			if !probeOnly {
-				outs = append(outs, "RRestartOk true")
-			}
-			// C03: the database holds exactly the bindings handed out so far
-			if rerr == nil {
-				got := map[string]string{}
-				for _, rw := range rows {
-					// key rows by what the plugin would reconstruct
-					got[rw.mac] = net.ParseIP(rw.ip).To4().String()
-				}
-				if len(rows) != len(bound) {
-					c.vio("C03", "db-binding-count", fmt.Sprintf("database has %d rows for %d bindings handed out", len(rows), len(bound)), rec(i))
-				}
-			}
-			return nh, true
-		}
-		probeAll := func(hh handler.Handler4, i int, what string) {
-			// every client bound so far must be given its address again by hh
-			keys := make([]string, 0, len(bound))
-			for k := range bound {
-				keys = append(keys, k)
-			}
-			sort.Strings(keys)
-			for _, k := range keys {
-				req := mkReq4([]byte(k), "", dhcpv4.MessageTypeRequest)
-				resp, _ := dhcpv4.New()
-				out, _, pan, _ := callH4(hh, req, resp)
-				if pan || out == nil || out.YourIPAddr.To4().String() != bound[k] {
-					got := "<none>"
-					if out != nil {
-						got = out.YourIPAddr.String()
-					}
-					c.vio("C03", "binding-not-restored", fmt.Sprintf("%s: client %x was bound to %s but is now given %s", what, k, bound[k], got), rec(i))
-				}
-			}
-		}
-		for i := 0; i < nops && !aborted; i++ {
+		var script []rsop
+		for i := 0; i < nops; i++ {
 			if r.Pct(8) && i > 0 {
-				c.Count("op:restart")
-				nh, ok := doRestart(i, dbPath, false)
-				if !ok {
-					aborted = true
-					break
-				}
-				h = nh
+				script = append(script, rsop{kind: "restart"})
 				continue
 			}
-			ch := clients[r.Intn(len(clients))]
-			host := hosts[r.Intn(len(hosts))]
-			mt := dhcpv4.MessageTypeDiscover
-			if r.Bool() {
-				mt = dhcpv4.MessageTypeRequest
+			script = append(script, rsop{kind: "req", client: r.Intn(len(clients)), host: rangeHosts[r.Intn(len(rangeHosts))], mt: mts[r.Intn(2)]})
+		}
+		runRangeHistory(c, hi, g.s, g.e, lease, clients, script, crashMode)
+	}
+	if c.Prop == "C02" {
+		runRangeConcurrent(c, c.Scale(10, 200))
+	}
+	c.Extra["rule"] = "histories of 1..60 DISCOVER/REQUEST over 1..70 clients (chaddr lengths 0..16 incl. 1-byte decimal-looking and prefix-related addresses, hostnames incl. numeric-looking/NUL/255 bytes/invalid UTF-8) on ranges of size 2,3,63,64,65 and one ending at 255.255.255.255, with restarts on the real sqlite file, the client's row read back after every reply (expiry bracketed by the model run on the clock readings before and after the call); two time-lapse histories in which real seconds pass (renewal inside the lease; restart after the leases ran out); C03: a copy of the file after requests restarted as a crash point and all bound clients probed; C02: concurrent phase; non-trivial = distinct history with >=2 ops and >=1 binding"
+}
+
+// runRangeConcurrent: G goroutines send requests at the same moment, for the same new client
+// and for different new clients, until the range is full.  Every serial order gives each client
+// exactly one address and uses exactly one address per client.
+func runRangeConcurrent(c *Ctx, ranges int) {
+	wd := workDir()
+	G := 8
+	for ri := 0; ri < ranges; ri++ {
+		dbPath := filepath.Join(wd, fmt.Sprintf("leases-conc-%d.sqlite3", ri))
+		os.Remove(dbPath)
+		size := 24
+		h, err := rangeplugin.Plugin.Setup4(dbPath, "10.7.0.1", "10.7.0.24", "1h")
+		if err != nil {
+			c.Violate("harness-setup", "concurrent phase: "+err.Error(), nil)
+			return
+		}
+		bound := map[string]string{}
+		owner := map[string]string{}
+		hist := []string{}
+		for round := 0; len(bound) < size+2 && round < 64; round++ {
+			same := round%2 == 0
+			macs := make([][]byte, G)
+			for g := 0; g < G; g++ {
+				if same || len(bound)+g >= size+2 {
+					macs[g] = []byte{2, byte(ri), byte(round), 0, 0, 0}
+				} else {
+					macs[g] = []byte{2, byte(ri), byte(round), 0, 0, byte(g)}
+				}
 			}
-			c.Count("op:" + strings.ToLower(mt.String()))
-			req := mkReq4(ch, host, mt)
-			resp, _ := dhcpv4.New()
-			t0 := time.Now()
-			out, stop, pan, pv := callH4(h, req, resp)
-			ops = append(ops, fmt.Sprintf("RReq %s %s %s", vZ(t0.UnixNano()), vBytes(ch), vStr(host)))
-			opS = append(opS, fmt.Sprintf("%s chaddr=%x host=%q", mt, ch, host))
-			key := string(ch)
-			switch {
-			case pan:
-				outs = append(outs, "RPanic")
-				c.vio("C02", "range-handler-panic", fmt.Sprintf("handler panics for chaddr %x: %v", ch, pv), rec(i))
-				aborted = true
-			case out == nil:
-				outs = append(outs, "RDrop")
-				c.Count("result:drop")
-				if !stop {
-					c.vio("C02", "nil-without-stop", "nil response without stop", rec(i))
-				}
-				if _, known := bound[key]; known {
-					c.vio("C02", "bound-client-dropped", fmt.Sprintf("client %x holds %s but got no reply", ch, bound[key]), rec(i))
-				} else if len(bound) < size {
-					c.vio("C02", "drop-while-free", fmt.Sprintf("unknown client %x dropped with %d of %d addresses bound", ch, len(bound), size), rec(i))
-				}
-			default:
-				c.Count("result:reply")
-				y := out.YourIPAddr.To4()
-				lt := out.Options.Get(dhcpv4.OptionIPAddressLeaseTime)
-				outs = append(outs, fmt.Sprintf("ROut %s %s", vBytes(y), vBytes(lt)))
-				ys := y.String()
-				if y == nil {
-					c.vio("C02", "no-yiaddr", fmt.Sprintf("reply to %x has no IPv4 yiaddr", ch), rec(i))
-					break
-				}
-				yv := binary.BigEndian.Uint32(y)
-				if yv < start || yv > end {
-					c.vio("C02", "lease-out-of-range", fmt.Sprintf("client %x given %s outside %s-%s", ch, ys, g.s, g.e), rec(i))
-				}
-				if o, taken := owner[ys]; taken && o != key {
-					c.vio("C02", "address-bound-twice", fmt.Sprintf("%s given to %x while bound to %x", ys, ch, o), rec(i))
-				}
-				if prev, known := bound[key]; known && prev != ys {
-					c.vio("C02", "lease-not-sticky", fmt.Sprintf("client %x was given %s, now %s", ch, prev, ys), rec(i))
-				} else if !known && len(bound) >= size {
-					c.vio("C02", "lease-beyond-capacity", fmt.Sprintf("unknown client %x served with all %d addresses bound", ch, size), rec(i))
-				}
-				wantLT := make([]byte, 4)
-				binary.BigEndian.PutUint32(wantLT, uint32(leaseD.Round(time.Second)/time.Second))
-				if string(lt) != string(wantLT) {
-					c.vio("C02", "wrong-lease-time", fmt.Sprintf("option 51 = %x, configured %s", lt, lease), rec(i))
-				}
-				bound[key] = ys
-				owner[ys] = key
-				lastPromise[key] = t0.Add(leaseD.Round(time.Second)).Unix()
+			outsY := make([]string, G)
+			var wg sync.WaitGroup
+			startCh := make(chan struct{})
+			for g := 0; g < G; g++ {
+				wg.Add(1)
+				go func(g int) {
+					defer wg.Done()
+					req := mkReq4(macs[g], "", dhcpv4.MessageTypeDiscover)
+					resp, _ := dhcpv4.New()
+					<-startCh
+					out, _, pan, _ := callH4(h, req, resp)
+					switch {
+					case pan:
+						outsY[g] = "panic"
+					case out == nil:
+						outsY[g] = "drop"
+					default:
+						outsY[g] = out.YourIPAddr.To4().String()
+					}
+				}(g)
 			}
-			// C03 crash point: copy the database as it is now and restart on the copy
-			if crashMode && !aborted && (c.Thorough() || i%3 == 0) {
-				cp := dbPath + ".crash"
-				if err := copyFile(dbPath, cp); err == nil {
-					c.Count("crash-point")
-					hh, ok := doRestart(i, cp, true)
-					if ok {
-						probeAll(hh, i, "after crash/restart at this point")
+			close(startCh)
+			wg.Wait()
+			c.Evals++
+			hist = append(hist, fmt.Sprintf("round %d: %v -> %v", round, fmtMacs(macs), outsY))
+			input := map[string]interface{}{"range": "10.7.0.1-10.7.0.24", "goroutines": G, "rounds": hist}
+			for g := 0; g < G; g++ {
+				k := string(macs[g])
+				y := outsY[g]
+				switch y {
+				case "panic":
+					c.vio("C02", "range-handler-panic", "handler panics under concurrent requests", input)
+				case "drop":
+					if _, known := bound[k]; known {
+						c.vio("C02", "bound-client-dropped", fmt.Sprintf("concurrent: client %x holds %s but got no reply", macs[g], bound[k]), input)
 					}
-					rows, _ := readLeases(dbPath)
-					for _, rw := range rows {
-						hw, perr := parseHWLoose(rw.mac)
-						if perr != nil {
-							continue
-						}
-						if p, okp := lastPromise[string(hw)]; okp && rw.expiry < p-1 {
-							c.vio("C03", "expiry-before-promise", fmt.Sprintf("stored expiry %d of %x is earlier than the promised lease end %d", rw.expiry, hw, p), rec(i))
-						}
+					// (an unknown client dropped: whether addresses were still free is judged after the rounds)
+				default:
+					if prev, known := bound[k]; known && prev != y {
+						c.vio("C02", "lease-not-sticky", fmt.Sprintf("concurrent: client %x was given %s and %s (requests sent at the same moment)", macs[g], prev, y), input)
 					}
-					os.Remove(cp)
+					if o, taken := owner[y]; taken && o != k {
+						c.vio("C02", "address-bound-twice", fmt.Sprintf("concurrent: %s given to %x while bound to %x", y, macs[g], o), input)
+					}
+					bound[k] = y
+					owner[y] = k
 				}
 			}
 		}
-		if !aborted {
-			// final restart + probe
-			c.Count("op:restart")
-			if nh, ok := doRestart(len(ops), dbPath, false); ok {
-				probeAll(nh, len(ops), "after the final restart")
-			}
+		// the database must hold exactly one row per client, and the range must take exactly `size` clients
+		rows, _ := readLeases(dbPath)
+		if len(rows) != len(bound) {
+			c.vio("C02", "db-binding-count", fmt.Sprintf("concurrent: leases4 has %d rows for %d clients served (an address was allocated twice for one client)", len(rows), len(bound)), map[string]interface{}{"rounds": hist})
+		}
+		if len(bound) < size {
+			c.vio("C02", "drop-while-free", fmt.Sprintf("concurrent: only %d clients could be served from a range of %d addresses", len(bound), size), map[string]interface{}{"rounds": hist})
+		}
+		if len(bound) > size {
+			c.vio("C02", "lease-beyond-capacity", fmt.Sprintf("concurrent: %d clients served from a range of %d addresses", len(bound), size), map[string]interface{}{"rounds": hist})
 		}
 		os.Remove(dbPath)
-		c.AddCase(fmt.Sprintf("CR %s %s %s %s %s", vBytes(s4), vBytes(e4), vZ(int64(leaseD)), vList(ops), vList(outs)))
-		c.Eval(g.s+g.e+lease+strings.Join(ops, ";"), len(bound) >= 1 && len(ops) >= 2)
-		c.Count(fmt.Sprintf("range-size:%d", size))
-		if hi%9 == 0 {
-			k := len(opS)
-			if k > 5 {
-				k = 5
-			}
-			c.Sample(map[string]interface{}{"range": g.s + "-" + g.e, "lease": lease, "clients": len(clients), "ops(first 5)": opS[:k], "outs(first 5)": outs[:k], "length": len(opS)})
-		}
 	}
-	c.Extra["rule"] = "histories of 1..60 DISCOVER/REQUEST over 1..70 clients (chaddr lengths 0..16 incl. 1-byte decimal-looking and prefix-related addresses, hostnames incl. numeric-looking/NUL/255 bytes/invalid UTF-8) on ranges of size 2,3,63,64,65 and one ending at 255.255.255.255, with restarts on the real sqlite file (C03: a copy of the file after requests restarted as a crash point and all bound clients probed); non-trivial = distinct history with >=2 ops and >=1 binding"
+	c.Dist["concurrent-ranges"] = ranges
+	c.Extra["concurrent_phase"] = fmt.Sprintf("%d ranges of 24 addresses filled by rounds of %d simultaneous requests (alternately all for one new client / for %d new clients)", ranges, G, G)
+}
+
+func fmtMacs(m [][]byte) []string {
+	out := make([]string, len(m))
+	for i, x := range m {
+		out[i] = fmt.Sprintf("%x", x)
+	}
+	return out
 }
 
 // parseHWLoose inverts HardwareAddr.String for the monitor (any length, lone digits accepted)
